@@ -73,9 +73,11 @@ impl<'de> RandomAccessDeserializer<'de> for StructDeserializer<'de> {
 
     fn deserialize_any_some<V: Visitor<'de>>(&self, visitor: V, idx: usize) -> Result<V::Value> {
         if idx >= self.len {
-            fail!("Exhausted deserializer");
+            fail!(in self, "Exhausted deserializer");
         }
-        visitor.visit_map(StructItemDeserializer::new(self, idx))
+        visitor
+            .visit_map(StructItemDeserializer::new(self, idx))
+            .ctx(self)
     }
 
     fn deserialize_map<V: Visitor<'de>>(&self, visitor: V, idx: usize) -> Result<V::Value> {
